@@ -47,6 +47,17 @@ EXPECTED_MISSES = {
 
 # (id, property, expected rule prefix, edits)
 FIRE: List[Tuple[str, str, str, List[Tuple[str, str, str]]]] = [
+    ("reduce-shortcut-for-falsy", "C07", "V11", [(I, "        return (self.__class__.FromString, (bytes(self),))\n", "        if not self and not self._unknown_fields:\n            return (self.__class__, ())\n        return (self.__class__.FromString, (bytes(self),))\n")]),
+    ("reduce-shortcut-for-falsy/C14", "C14", "V11", [(I, "        return (self.__class__.FromString, (bytes(self),))\n", "        if not self and not self._unknown_fields:\n            return (self.__class__, ())\n        return (self.__class__.FromString, (bytes(self),))\n")]),
+    ("stub-timeout-folded-into-deadline", "C11", "G11", [(CL, "        self.deadline = deadline\n", "        self.deadline = deadline if timeout is None else Deadline.from_timeout(timeout)\n")]),
+    ("timestamp-json-micros-unpadded", "C15", "K3b", [(I, "            return f\"{result}.{int(nanos // 1e3):06d}Z\"\n", "            return f\"{result}.{int(nanos // 1e6):03d}{int(nanos // 1e3) % 1000}Z\"\n")]),
+    ("timestamp-json-micros-unpadded/C05", "C05", "K3b", [(I, "            return f\"{result}.{int(nanos // 1e3):06d}Z\"\n", "            return f\"{result}.{int(nanos // 1e6):03d}{int(nanos // 1e3) % 1000}Z\"\n")]),
+    ("load-varint-raw-reencoded", "C16", "N7", [(I, "            return result, raw\n", "            return result, encode_varint(result)\n")]),
+    ("nested-parse-valueerror-swallowed", "C17", "M8", [(I, "                    value = _Duration().parse(value).to_timedelta()\n", "                    try:\n                        value = _Duration().parse(value).to_timedelta()\n                    except (OverflowError, ValueError):\n                        value = timedelta.max\n")]),
+    ("datetime-imports-split-on-brackets", "C18", "Y12", [(MD, "        imports = set()\n        annotation = self.annotation\n        # FIXME: false positives - e.g. `MyDatetimedelta`\n        if \"timedelta\" in annotation:\n            imports.add(\"timedelta\")\n        if \"datetime\" in annotation:\n            imports.add(\"datetime\")\n        return imports\n", "        return {\"timedelta\", \"datetime\"}.intersection(re.split(r\"[\\[\\], |]+\", self.annotation))\n")]),
+    ("field-args-wraps-dropped-in-table-form", "C03", "P10", [(MD, "        args = []\n        if self.field_wraps:\n            args.append(f\"wraps={self.field_wraps}\")\n        if self.optional:\n            args.append(f\"optional=True\")\n        return args\n", "        candidates = ((\"optional=True\", self.optional),)\n        return [arg for arg, wanted in candidates if wanted]\n")]),
+    ("field-args-optional-from-descriptor-in-table-form", "C18", "Y6", [(MD, "        args = []\n        if self.field_wraps:\n            args.append(f\"wraps={self.field_wraps}\")\n        if self.optional:\n            args.append(f\"optional=True\")\n        return args\n", "        wraps = self.field_wraps\n        candidates = ((f\"wraps={wraps}\", wraps), (\"optional=True\", self.proto_obj.proto3_optional))\n        return [arg for arg, wanted in candidates if wanted]\n")]),
+    ("type-reference-memo-request-wide", "C13", "X11", [(MD, "            return get_type_reference(\n                package=self.output_file.package,\n                imports=self.output_file.imports_end,\n                source_type=self.proto_obj.type_name,\n                typing_compiler=self.typing_compiler,\n                pydantic=self.output_file.pydantic_dataclasses,\n            )\n        else:", "            memo = self.request.__dict__.setdefault(\"_refs\", {})\n            if self.proto_obj.type_name not in memo:\n                memo[self.proto_obj.type_name] = get_type_reference(\n                    package=self.output_file.package,\n                    imports=self.output_file.imports_end,\n                    source_type=self.proto_obj.type_name,\n                    typing_compiler=self.typing_compiler,\n                    pydantic=self.output_file.pydantic_dataclasses,\n                )\n            return memo[self.proto_obj.type_name]\n        else:")]),
     ("load-prefix-byte-not-handed-on", "C10", "S3", [(I, "            size, _ = load_varint(stream)\n", "            prefix = stream.read(1)\n            if not prefix:\n                raise EOFError(\"no further message\")\n            if prefix[0] & 0x80:\n                size, _ = load_varint(stream)\n            else:\n                size = prefix[0]\n")]),
     ("submessage-parse-skipped-for-fieldless", "C08", "T1", [(I, "                    value = cls().parse(value)\n", "                    data, value = value, cls()\n                    if value._betterproto.meta_by_field_name:\n                        value.parse(data)\n")]),
     ("string-decode-lenient", "C17", "M7", [(I, "                value = str(value, \"utf-8\")\n", "                value = str(value, \"utf-8\", \"replace\")\n")]),
@@ -164,6 +175,13 @@ CODEC = ["C01", "C02", "C06", "C08", "C09", "C10", "C16", "C17", "C20"]
 
 # (id, properties that must stay at exit 0, edits)  -- behaviour-preserving refactors
 SILENT: List[Tuple[str, List[str], List[Any]]] = [
+    ("reduce-through-serialize-to-string", ["C07", "C14"], [(I, "        return (self.__class__.FromString, (bytes(self),))\n", "        cls = self.__class__\n        return (cls.FromString, (self.SerializeToString(),))\n")]),
+    ("stub-metadata-copied", ["C11"], [(CL, "        self.metadata = metadata\n", "        self.metadata = metadata if metadata is None else dict(metadata)\n")]),
+    ("timestamp-json-integer-groups", ["C15", "C05", "C04"], [(I, "        if (nanos % 1e9) == 0:\n            # If there are 0 fractional digits, the fractional\n            # point '.' should be omitted when serializing.\n            return f\"{result}Z\"\n        if (nanos % 1e6) == 0:\n            # Serialize 3 fractional digits.\n            return f\"{result}.{int(nanos // 1e6):03d}Z\"\n        if (nanos % 1e3) == 0:\n            # Serialize 6 fractional digits.\n            return f\"{result}.{int(nanos // 1e3):06d}Z\"\n        # Serialize 9 fractional digits.\n        return f\"{result}.{nanos:09d}\"\n", "        micros = int(nanos // 1e3)\n        if not micros:\n            return f\"{result}Z\"\n        millis, rest = divmod(micros, 1000)\n        if not rest:\n            return f\"{result}.{millis:03d}Z\"\n        return f\"{result}.{millis:03d}{rest:03d}Z\"\n")]),
+    ("load-varint-raw-in-bytearray", ["C16", "C08", "C17", "C01", "C02"], [(I, "    raw = b\"\"\n    for shift in count(0, 7):", "    raw = bytearray()\n    for shift in count(0, 7):"), (I, "            return result, raw\n", "            return result, bytes(raw)\n")]),
+    ("nested-parse-valueerror-reraised-with-context", ["C17", "C15"], [(I, "                    value = _Duration().parse(value).to_timedelta()\n", "                    try:\n                        value = _Duration().parse(value).to_timedelta()\n                    except ValueError as exc:\n                        raise ValueError(f\"invalid Duration: {exc}\") from exc\n")]),
+    ("datetime-imports-by-identifier-scan", ["C18", "C03"], [(MD, "        imports = set()\n        annotation = self.annotation\n        # FIXME: false positives - e.g. `MyDatetimedelta`\n        if \"timedelta\" in annotation:\n            imports.add(\"timedelta\")\n        if \"datetime\" in annotation:\n            imports.add(\"datetime\")\n        return imports\n", "        return {\"timedelta\", \"datetime\"}.intersection(re.findall(r\"[A-Za-z_][A-Za-z_0-9]*\", self.annotation))\n")]),
+    ("field-args-table-form", ["C03", "C18"], [(MD, "        args = []\n        if self.field_wraps:\n            args.append(f\"wraps={self.field_wraps}\")\n        if self.optional:\n            args.append(f\"optional=True\")\n        return args\n", "        wraps = self.field_wraps\n        candidates = ((f\"wraps={wraps}\", wraps), (\"optional=True\", self.optional))\n        return [arg for arg, wanted in candidates if wanted]\n")]),
     ("load-prefix-byte-handed-on", ["C10", "C08", "C17", "C01"], [(I, "            size, _ = load_varint(stream)\n", "            prefix = stream.read(1)\n            if not prefix:\n                raise EOFError(\"no further message\")\n            size, _ = load_varint(stream, prefix)\n")]),
     ("submessage-parse-as-statement", ["C01", "C02", "C08", "C06"], [(I, "                    value = cls().parse(value)\n", "                    data, value = value, cls()\n                    value.parse(data)\n")]),
     ("type-hints-vars-namespace", ["C13", "C03"], [(I, "        return get_type_hints(cls, module.__dict__, {})", "        return get_type_hints(cls, vars(module), {})")]),
